@@ -16,10 +16,21 @@
          that [Sched.exec] accepts and that is complete ends in the world of the sequential run in
          the order in which the threads took L, with the same results.
      §2  the order: [entry_order entry sched] — thread j enters the order at its [entry j]-th step
-     §3  delete_object has the shape; N deleters of pairwise distinct pids bound to one cid
-         ([one_cid_deleters_linearizable]); the stability of a bound pid under the solo run of a
-         deleter of another pid is CrashGeneral.crash_WI (every crash point of a call leaves every
-         other pid's reference, list membership and object as they were). *)
+     §3  the hypotheses are satisfiable by API programs: the taggers of one cid, one-step prelude
+     §4  shape rules: [Pre] / [CS3] / [Post] with the part after Release L left open ([Preg],
+         [CSg]) and read-only prefixes ([RD]) compose through [bind] — no associativity of bind
+         (it would need functional extensionality)
+     §5  delete_object q has the shape ([pre_delete]): under J = "q is bound to c" (reference,
+         membership in the cid list, object present) the seven reads of find_object have one
+         continuation each, the cid lock is the 10th step, and everything up to its release is
+         quiet.  The decision "last reference: remove the list and the object" is taken from
+         size_lines read INSIDE the lock.
+     §6  [one_cid_taggers_deleters_linearizable]: pools of tag_object p_i c and delete_object q_j,
+         pids pairwise distinct, every q_j bound to c in a start world satisfying Spec.Inv.  The
+         stability of "q_j bound to c" under the solo run of another call, by any thread, is
+         CrashGeneralT.solo_call_keeps_other (CrashGeneral.v's frame for thread t, relative to the
+         pids one cares about); the invariant between complete runs is "well typed" only.
+         [one_cid_deleters_linearizable]: the deleters alone. *)
 From HS Require Import Base PyVal FS Ops Sched Spec SeqLemmas Bracket SchedCV Mutex Indep IndepMeta OneDoc OneCid.
 
 (* ====================================================================================== *)
@@ -699,4 +710,498 @@ Proof.
     split; [|split; [exact N4 | exact N5]].
     rewrite <- seq_runp_seq_run; [exact N3|]. intros i Hi. apply N2' in Hi.
     unfold calls. rewrite map_length. exact Hi.
+Qed.
+
+(* ====================================================================================== *)
+(* §4  shape rules: [Pre] / [CS3] / [Post] through [bind], without associativity of bind   *)
+(* ====================================================================================== *)
+
+From HS Require CrashGeneral CrashGeneralT.
+
+(* q is bound to c: reference, membership in the cid list, object present *)
+Definition boundto (q : pid) (c : cid) (m : fmap) : Prop :=
+  lookup (APidRef q) m = Some (CCid c) /\
+  (exists l, lookup (ACidRef c) m = Some (CLines l) /\ In q l) /\
+  lookup (AObj c) m <> None.
+
+Section ShapeRules.
+  Variable L : lock.
+  Variable priv : lock -> bool.
+  Variable mine : nat -> lock -> bool.
+  Variable pl : nat -> lock.
+  Variable J : nat -> fmap -> Prop.
+  Variable i : nat.
+
+  (* [CS3] with what follows Release L left open *)
+  Fixpoint CSg (X : Type) (Q : prog X -> Prop) (m : prog X) : Prop :=
+    match m with
+    | Ret _ => False
+    | Bad => True
+    | Vis o k =>
+        (o = Release (fst L) (snd L) /\ Q (k AUnit)) \/
+        (quiet priv L (pl i) o /\ forall a, CSg X Q (k a))
+    end.
+
+  (* [Pre] with what follows Release L left open; it may depend on the private locks held *)
+  Inductive Preg (X : Type) (Q : list lock -> prog X -> Prop) : nat -> list lock -> prog X -> Prop :=
+  | pg_enter : forall hl k, In (pl i) hl -> CSg X (Q hl) (k AUnit) ->
+      Preg X Q 0 hl (Vis (Acquire (fst L) (snd L)) k)
+  | pg_acq : forall n hl l k, mine i l = true -> ~ In l hl -> Preg X Q n (l :: hl) (k AUnit) ->
+      Preg X Q (S n) hl (Vis (Acquire (fst l) (snd l)) k)
+  | pg_read : forall n hl o k m, rdop o -> det X J i o k m -> Preg X Q n hl m ->
+      Preg X Q (S n) hl (Vis o k).
+
+  (* n reads, each with one continuation under J i, then the result r *)
+  Inductive RD (X : Type) : nat -> prog X -> X -> Prop :=
+  | rd_ret : forall r, RD X 0 (Ret r) r
+  | rd_vis : forall n o k m r, rdop o -> det X J i o k m -> RD X n m r -> RD X (S n) (Vis o k) r.
+
+  Lemma CSg_bind_quiet : forall X Y (m : prog X) (f : X -> prog Y) Q,
+    Ops (quiet priv L (pl i)) m -> (forall a, CSg Y Q (f a)) -> CSg Y Q (bind m f).
+  Proof.
+    induction m as [a|o k IH|]; simpl; intros f Q Hm Hf; auto.
+    destruct Hm as [Ho Hk]. right. split; auto.
+  Qed.
+
+  Lemma CSg_bind : forall X Y (m : prog X) (f : X -> prog Y) (Q1 : prog X -> Prop) (Q : prog Y -> Prop),
+    CSg X Q1 m -> (forall m', Q1 m' -> Q (bind m' f)) -> CSg Y Q (bind m f).
+  Proof.
+    induction m as [a|o k IH|]; simpl; intros f Q1 Q Hm Hf; auto; try contradiction.
+    destruct Hm as [[-> HQ]|[Hq Hk]].
+    - left. split; auto.
+    - right. split; auto. intros a. eapply IH; eauto.
+  Qed.
+
+  Lemma Preg_bind : forall X Y (f : X -> prog Y) (Q1 : list lock -> prog X -> Prop)
+                           (Q : list lock -> prog Y -> Prop) n hl (m : prog X),
+    Preg X Q1 n hl m -> (forall hl' m', Q1 hl' m' -> Q hl' (bind m' f)) -> Preg Y Q n hl (bind m f).
+  Proof.
+    intros X Y f Q1 Q n hl m H Hf. induction H; simpl.
+    - apply pg_enter; auto. eapply CSg_bind; eauto.
+    - apply pg_acq; auto.
+    - eapply pg_read with (m := bind m f); auto.
+      intros t w a w' HJ He. rewrite (H0 t w a w' HJ He). reflexivity.
+  Qed.
+
+  Lemma RD_bind : forall X Y n (m : prog X) r (f : X -> prog Y) n' r',
+    RD X n m r -> RD Y n' (f r) r' -> RD Y (n + n') (bind m f) r'.
+  Proof.
+    intros X Y n m r f n' r' H Hf. induction H; simpl; auto.
+    eapply rd_vis with (m := bind m f); auto.
+    intros t w a w' HJ He. rewrite (H0 t w a w' HJ He). reflexivity.
+  Qed.
+
+  Lemma RD_mbind : forall X Y n (m : M X) a (f : X -> M Y) n' r',
+    RD (outcome X) n m (Val a) -> RD (outcome Y) n' (f a) r' -> RD (outcome Y) (n + n') (mbind m f) r'.
+  Proof. intros. unfold mbind. eapply RD_bind; eauto. Qed.
+
+  Lemma Preg_bind_RD : forall X Y n (m : prog X) r (f : X -> prog Y) Q n' hl,
+    RD X n m r -> Preg Y Q n' hl (f r) -> Preg Y Q (n + n') hl (bind m f).
+  Proof.
+    intros X Y n m r f Q n' hl H Hf. induction H; simpl; auto.
+    eapply pg_read with (m := bind m f); auto.
+    intros t w a w' HJ He. rewrite (H0 t w a w' HJ He). reflexivity.
+  Qed.
+
+  Lemma Preg_mbind_acq : forall Y cls x (f : unit -> M Y) (Q : list lock -> prog (outcome Y) -> Prop) n hl,
+    mine i (cls, x) = true -> ~ In (cls, x) hl -> Preg (outcome Y) Q n ((cls, x) :: hl) (f tt) ->
+    Preg (outcome Y) Q (S n) hl (mbind (acquire cls x) f).
+  Proof.
+    intros Y cls x f Q n hl H1 H2 H3. unfold mbind, acquire. simpl.
+    apply (pg_acq (outcome Y) Q n hl (cls, x)); auto.
+  Qed.
+
+  Lemma Preg_mbind_enter : forall Y (f : unit -> M Y) (Q : list lock -> prog (outcome Y) -> Prop) hl,
+    In (pl i) hl -> CSg (outcome Y) (Q hl) (f tt) ->
+    Preg (outcome Y) Q 0 hl (mbind (acquire (fst L) (snd L)) f).
+  Proof.
+    intros Y f Q hl H2 H3. unfold mbind, acquire. simpl.
+    apply (pg_enter (outcome Y) Q hl); auto.
+  Qed.
+
+  Lemma CSg_try_finally : forall Y (m : M Y) (Q : prog (outcome Y) -> Prop),
+    Ops (quiet priv L (pl i)) m -> (forall r, Q (Ret r)) ->
+    CSg (outcome Y) Q (try_finally m (release (fst L) (snd L))).
+  Proof.
+    intros Y m Q Hm HQ. unfold try_finally. apply CSg_bind_quiet; auto.
+    intros r. unfold release. simpl. left. split; [reflexivity|]. simpl. apply HQ.
+  Qed.
+
+  Lemma Post_bind_pure : forall X Y hl r (m : prog X) (h : X -> prog Y),
+    Post X hl r m -> (forall r0, exists r', h r0 = Ret r') -> exists r', Post Y hl r' (bind m h).
+  Proof.
+    intros X Y hl r m h H Hh. induction H; simpl.
+    - destruct (Hh r) as [r' E]. exists r'. rewrite E. apply post_nil.
+    - destruct IHPost as [r' H']. exists r'. apply post_rel. exact H'.
+  Qed.
+
+  Lemma CSg_CS3 : forall X hl (m : prog X),
+    CSg X (fun m' => exists r, Post X hl r m') m -> CS3 X L priv pl i hl m.
+  Proof.
+    intros X hl. induction m as [r|o k IH|]; simpl; auto.
+    intros [[-> H]|[Hq Hk]]; [left; auto|right; split; auto].
+  Qed.
+
+  Lemma Preg_Pre : forall X n hl (m : prog X),
+    Preg X (fun hl' m' => exists r, Post X hl' r m') n hl m -> Pre X L priv mine pl J i n hl m.
+  Proof.
+    intros X n hl m H. induction H.
+    - apply pre_enter; auto. apply CSg_CS3. exact H0.
+    - apply pre_acq; auto.
+    - eapply pre_read; eauto.
+  Qed.
+End ShapeRules.
+
+(* ====================================================================================== *)
+(* §5  delete_object has the shape                                                         *)
+(* ====================================================================================== *)
+
+(* the private locks: the reference-pid locks and the object-pid locks *)
+Definition priv2 (l : lock) : bool := lockcls_eqb (fst l) LRefPid || lockcls_eqb (fst l) LObjPid.
+Definition obj_lock (p : pid) : lock := (LObjPid, IPid p).
+
+(* the operations of delete_object under the cid lock: file operations, the flock of the cid list,
+   the locks of the pid's metadata documents *)
+Definition delop (o : op) : Prop :=
+  match o with
+  | Acquire cls _ | Release cls _ => cls = LFile \/ cls = LMeta
+  | Peek _ _ | Held _ _ => False
+  | _ => True
+  end.
+
+Lemma delop_quiet : forall c Li o, delop o -> quiet priv2 (cid_lock c) Li o.
+Proof.
+  intros c Li o H. destruct o; simpl in *; auto; try contradiction.
+  - destruct H as [->| ->]; split; try reflexivity; discriminate.
+  - destruct H as [->| ->]; split; try reflexivity; discriminate.
+Qed.
+
+Lemma tagop_quiet2 : forall p c o, tagop p o -> quiet priv2 (cid_lock c) (pid_lock p) o.
+Proof.
+  intros p c o H. destruct o; simpl in *; auto.
+  - subst. split; [reflexivity | discriminate].
+  - subst. split; [reflexivity | discriminate].
+  - destruct H as [->|H]; [left; reflexivity | right; exact H].
+  - destruct H as [->|H]; [left; reflexivity | right; exact H].
+Qed.
+
+Lemma writer2_tag2 : forall p c,
+  writer2 (outcome value) priv2 (cid_lock c) (pid_lock p) (api (CTag p c)).
+Proof.
+  intros. unfold api, lift_unit. unfold mbind at 1. apply writer2_bind_pure.
+  - rewrite tag_object_brackets. apply writer2_brackets.
+    eapply Ops_mono; [|apply Ops_tag_body]. intros o. apply tagop_quiet2.
+  - intros [u|e]; eexists; reflexivity.
+Qed.
+
+Lemma Ops_acquire : forall (P : op -> Prop) cls x, P (Acquire cls x) -> Ops P (acquire cls x).
+Proof. intros. simpl. split; auto. intros y; destruct y; simpl; auto. Qed.
+Lemma Ops_release : forall (P : op -> Prop) cls x, P (Release cls x) -> Ops P (release cls x).
+Proof. intros. simpl. split; auto. intros y; destruct y; simpl; auto. Qed.
+Lemma Ops_listdir : forall (P : op -> Prop) p, P (ListDir p) -> Ops P (listdir p).
+Proof. intros. simpl. split; auto. intros y; destruct y; simpl; auto. Qed.
+
+Create HintDb delopsdb.
+
+Ltac dops1 :=
+  lazymatch goal with
+  | |- Ops _ (mbind _ _) => apply Ops_mbind; [|intros ?]
+  | |- Ops _ (catch _) => apply Ops_catch
+  | |- Ops _ (try_finally _ _) => apply Ops_try_finally
+  | |- Ops _ (probe _) => apply Ops_probe
+  | |- Ops _ (read _) => apply Ops_read
+  | |- Ops _ (unit_op _) => apply Ops_unit_op
+  | |- Ops _ (swallow_op _) => apply Ops_swallow_op
+  | |- Ops _ (size_lines _) => apply Ops_size_lines
+  | |- Ops _ (rewrite_write _ _) => apply Ops_rewrite_write
+  | |- Ops _ (funlock _) => apply Ops_funlock
+  | |- Ops _ (acquire _ _) => apply Ops_acquire
+  | |- Ops _ (release _ _) => apply Ops_release
+  | |- Ops _ (listdir _) => apply Ops_listdir
+  | |- Ops _ (ret _) => exact I
+  | |- Ops _ (raise _) => exact I
+  | |- Ops _ Bad => exact I
+  | |- Ops _ (if ?b then _ else _) => destruct b
+  | |- Ops _ (match ?x with _ => _ end) => destruct x
+  | |- delop _ => solve [simpl; auto]
+  | |- _ => solve [auto with delopsdb]
+  end.
+Ltac dops := repeat dops1.
+
+Lemma DOps_rename_for_deletion : forall a, Ops delop (rename_for_deletion a).
+Proof. intros. unfold rename_for_deletion. dops. Qed.
+Lemma DOps_delete_marked : forall l, Ops delop (delete_marked l).
+Proof.
+  induction l as [|a l IH]; [exact I|].
+  change (Ops delop (swallow_op (Remove a) ;;; delete_marked l)).
+  apply Ops_mbind; [apply Ops_swallow_op; exact I | intros _; exact IH].
+Qed.
+Lemma DOps_update_refs_remove : forall a q, Ops delop (update_refs_remove a q).
+Proof. intros. unfold update_refs_remove. dops. Qed.
+Lemma DOps_probe_all : forall l, Ops delop (probe_all l).
+Proof.
+  induction l as [|a l IH]; [exact I|].
+  change (Ops delop (b <- probe a ;; r <- probe_all l ;; ret (if b then a :: r else r))).
+  apply Ops_mbind; [apply Ops_probe; exact I|]. intros b.
+  apply Ops_mbind; [exact IH|]. intros r. exact I.
+Qed.
+#[export] Hint Resolve DOps_rename_for_deletion DOps_delete_marked DOps_update_refs_remove DOps_probe_all : delopsdb.
+Lemma DOps_mark_docs : forall l, Ops delop (mark_docs l).
+Proof.
+  induction l as [|a l IH]; [exact I|].
+  cbn [mark_docs]. dops.
+Qed.
+#[export] Hint Resolve DOps_mark_docs : delopsdb.
+Lemma DOps_delete_metadata : forall p f, Ops delop (delete_metadata p f).
+Proof. intros. unfold delete_metadata. dops. Qed.
+#[export] Hint Resolve DOps_delete_metadata : delopsdb.
+
+Section DelShape.
+  Variable mine : nat -> lock -> bool.
+  Variable pl : nat -> lock.
+  Variable J : nat -> fmap -> Prop.
+  Variable i : nat.
+  Variable q : pid.
+  Variable c : cid.
+  Hypothesis HJ : forall m, J i m -> boundto q c m.
+  Hypothesis Hm1 : mine i (obj_lock q) = true.
+  Hypothesis Hm2 : mine i (pid_lock q) = true.
+  Hypothesis Hpl : pl i = pid_lock q.
+
+  Lemma rd_probe_present : forall a, (forall m, J i m -> lookup a m <> None) ->
+    RD J i (outcome bool) 1 (probe a) (Val true).
+  Proof.
+    intros a Ha. unfold probe. eapply rd_vis with (m := ret true); [exact I| |apply rd_ret].
+    intros t w x w' Hj He. simpl in He. inversion He; subst. specialize (Ha _ Hj).
+    destruct (lookup a (fs w')); [reflexivity|congruence].
+  Qed.
+
+  Lemma rd_probe_ignore : forall a X n (f : M X) r,
+    RD J i (outcome X) n f r -> RD J i (outcome X) (S n) (mbind (probe a) (fun _ => f)) r.
+  Proof.
+    intros a X n f r H. unfold mbind, probe. simpl. eapply rd_vis with (m := f); [exact I| |exact H].
+    intros t w x w' _ He. simpl in He. inversion He; subst. reflexivity.
+  Qed.
+
+  Lemma rd_read_cid : RD J i (outcome cid) 1 (read_cid (APidRef q)) (Val c).
+  Proof.
+    unfold read_cid, mbind, read. simpl. eapply rd_vis with (m := Ret (Val c)); [exact I| |apply rd_ret].
+    intros t w x w' Hj He. destruct (HJ _ Hj) as (H1 & _). simpl in He. rewrite H1 in He.
+    inversion He; subst. reflexivity.
+  Qed.
+
+  Lemma rd_is_in_refs : RD J i (outcome bool) 1 (is_in_refs q (ACidRef c)) (Val true).
+  Proof.
+    unfold is_in_refs, read_lines, mbind, read. simpl.
+    eapply rd_vis with (m := Ret (Val true)); [exact I| |apply rd_ret].
+    intros t w x w' Hj He. destruct (HJ _ Hj) as (_ & (l & Hl & Hin) & _). simpl in He. rewrite Hl in He.
+    inversion He; subst. simpl. unfold ret.
+    apply (proj2 (memb_In Nat.eqb nat_eqb_true Nat.eqb_refl q l)) in Hin. rewrite Hin. reflexivity.
+  Qed.
+
+  Lemma rd_find_object : RD J i (outcome cid) 7 (find_object q) (Val c).
+  Proof.
+    unfold find_object.
+    eapply RD_mbind with (n := 1) (n' := 6) (a := true).
+    { apply rd_probe_present. intros m Hj. destruct (HJ _ Hj) as (H1 & _). congruence. }
+    cbv beta. cbn [negb].
+    eapply RD_mbind with (n := 1) (n' := 5) (a := c); [apply rd_read_cid|]. cbv beta.
+    eapply RD_mbind with (n := 1) (n' := 4) (a := true).
+    { apply rd_probe_present. intros m Hj. destruct (HJ _ Hj) as (_ & (l & Hl & _) & _). congruence. }
+    cbv beta. cbn [negb].
+    eapply RD_mbind with (n := 1) (n' := 3) (a := true); [apply rd_is_in_refs|]. cbv beta. cbn [negb].
+    eapply RD_mbind with (n := 1) (n' := 2) (a := true).
+    { apply rd_probe_present. intros m Hj. destruct (HJ _ Hj) as (_ & _ & H3). exact H3. }
+    cbv beta. cbn [negb].
+    eapply RD_mbind with (n := 1) (n' := 1) (a := true).
+    { apply rd_probe_present. intros m Hj. destruct (HJ _ Hj) as (_ & _ & H3). exact H3. }
+    cbv beta. cbn [negb].
+    apply rd_probe_ignore. apply rd_ret.
+  Qed.
+
+  Lemma pre_delete : Pre (outcome value) (cid_lock c) priv2 mine pl J i 9 [] (api (CDelete q)).
+  Proof.
+    apply Preg_Pre. unfold api, lift_unit. unfold mbind at 1.
+    eapply Preg_bind with (Q1 := fun hl m' => exists r, Post (outcome unit) hl r m').
+    2:{ intros hl' m' [r H]. eapply Post_bind_pure; [exact H|]. intros [u|e]; eexists; reflexivity. }
+    unfold delete_object. unfold try_finally at 1.
+    eapply Preg_bind with
+      (Q1 := fun hl (m' : prog (outcome unit)) => hl = [pid_lock q; obj_lock q] /\ exists r, m' = Ret r).
+    2:{ intros hl' m' [-> [r ->]]. exists r. simpl.
+        apply (post_rel (outcome unit) (pid_lock q)). simpl.
+        apply (post_rel (outcome unit) (obj_lock q)). simpl. apply post_nil. }
+    apply Preg_mbind_acq; [exact Hm1|intros []|].
+    apply Preg_mbind_acq; [exact Hm2|intros [H|[]]; discriminate|].
+    unfold mbind at 1.
+    eapply Preg_bind_RD with (n := 7) (n' := 0) (r := Val (Val c)).
+    { unfold catch. eapply RD_bind with (n := 7) (n' := 0); [apply rd_find_object|apply rd_ret]. }
+    cbv beta iota.
+    apply (Preg_mbind_enter (cid_lock c)).
+    { rewrite Hpl. left. reflexivity. }
+    apply (CSg_try_finally (cid_lock c)).
+    - eapply Ops_mono; [intros o; apply delop_quiet|]. dops.
+    - intros r. split; [reflexivity|]. exists r. reflexivity.
+  Qed.
+End DelShape.
+
+(* ====================================================================================== *)
+(* §6  taggers and deleters of one cid                                                     *)
+(* ====================================================================================== *)
+
+Lemma run_as_Solo : forall A t (m : prog A) w w' r,
+  run_as t w m = Some (w', r) -> exists hs, Solo t m w hs w' (Ret r).
+Proof.
+  induction m as [a|o k IH|]; intros w w' r H; simpl in H.
+  - inversion H; subst. exists []. apply solo_nil.
+  - destruct (exec_op t o w) as [[x w1]|] eqn:E; [|discriminate].
+    destruct (IH x w1 w' r H) as [hs Hs]. exists (x :: hs). eapply solo_cons; eauto.
+  - discriminate.
+Qed.
+
+(* the calls of the pools: tag_object p c and delete_object q, on ONE cid c *)
+Definition td_call (c : cid) (cl : call) : Prop :=
+  match cl with
+  | CTag _ c' => c' = c
+  | CDelete _ => True
+  | _ => False
+  end.
+
+Definition td_pid (cl : call) : pid :=
+  match cl with CTag p _ | CDelete p => p | _ => 0 end.
+
+(* a tagger takes the cid lock with its 2nd step, a deleter (two pid locks, the seven reads of
+   find_object) with its 10th *)
+Definition td_entry (calls : list call) (i : nat) : nat :=
+  match nth_error calls i with Some (CDelete _) => 10 | _ => 2 end.
+
+Theorem one_cid_taggers_deleters_linearizable :
+  forall (c : cid) (calls : list call) (w0 : world) (sched : list nat) (cf : cfg),
+    Spec.Inv w0 ->
+    (forall cl, In cl calls -> td_call c cl) ->
+    NoDup (map td_pid calls) ->
+    (forall q, In (CDelete q) calls -> boundto q c (fs w0)) ->
+    exec (map api calls) sched (init_cfg (map api calls) w0) = Some cf ->
+    stuck (map api calls) cf ->
+    finished (map api calls) cf = true /\ locks (snd cf) = [] /\
+    exists (w' : world) (rs : list (outcome value)),
+      let ord := entry_order (td_entry calls) sched in
+      NoDup ord /\ (forall i, In i ord <-> i < length calls) /\
+      seq_run calls ord w0 = Some (w', rs) /\
+      snd cf = w' /\
+      map (thread_result (map api calls) cf) ord = map Some rs.
+Proof.
+  intros c calls w0 sched cf HI Hcalls Hnd Hbound He Hst.
+  set (pidat := fun i => nth i (map td_pid calls) 0).
+  set (pl := fun i => pid_lock (pidat i)).
+  set (mine := fun i l => lock_eqb l (pid_lock (pidat i)) || lock_eqb l (obj_lock (pidat i))).
+  set (J := fun i m => match nth_error calls i with Some (CDelete q) => boundto q c m | _ => True end).
+  set (WInv := fun w : world => CrashGeneral.typed (fs w)).
+  assert (Hlen : length (map api calls) = length calls) by apply map_length.
+  assert (Hpid : forall i cl, nth_error calls i = Some cl -> pidat i = td_pid cl).
+  { intros i cl E. unfold pidat. apply nth_error_nth. rewrite nth_error_map, E. reflexivity. }
+  assert (Hnth : forall i p, nth_error (map api calls) i = Some p ->
+            exists cl, nth_error calls i = Some cl /\ p = api cl /\
+                       (cl = CDelete (pidat i) \/ cl = CTag (pidat i) c)).
+  { intros i p Hp. rewrite nth_error_map in Hp.
+    destruct (nth_error calls i) as [cl|] eqn:E; [|discriminate]. inversion Hp; subst p.
+    exists cl. split; [reflexivity|]. split; [reflexivity|].
+    pose proof (Hcalls cl (nth_error_In _ _ E)) as Hc. rewrite (Hpid i cl E).
+    destruct cl; simpl in Hc; try contradiction; [subst; right|left]; reflexivity. }
+  assert (Hmine_pid : forall i l, mine i l = true -> l = pid_lock (pidat i) \/ l = obj_lock (pidat i)).
+  { intros i l H. unfold mine in H. apply orb_true_iff in H.
+    destruct H as [H|H]; apply lock_eqb_true in H; auto. }
+  assert (Hinj : forall i j, i < length calls -> j < length calls -> pidat i = pidat j -> i = j).
+  { intros i j Hi Hj E. apply (proj1 (NoDup_nth (map td_pid calls) 0) Hnd); auto;
+      rewrite map_length; auto. }
+  destruct (prelude_pool (outcome value) (map api calls) (cid_lock c) priv2 mine pl (td_entry calls)
+              J WInv w0) with (sched := sched) (c := cf)
+    as (H1 & H2 & w' & rs & H3); auto.
+  - (* the shapes *)
+    intros i p Hp. destruct (Hnth i p Hp) as (cl & E & -> & [->| ->]).
+    + exists 9. split; [|unfold td_entry; rewrite E; reflexivity].
+      apply pre_delete.
+      * intros m Hj. unfold J in Hj. rewrite E in Hj. exact Hj.
+      * unfold mine. rewrite (lock_eqb_refl (obj_lock (pidat i))). apply orb_true_r.
+      * unfold mine. rewrite (lock_eqb_refl (pid_lock (pidat i))). reflexivity.
+      * reflexivity.
+    + exists 1. split; [|unfold td_entry; rewrite E; reflexivity].
+      destruct (writer2_tag2 (pidat i) c) as (k1 & k2 & Ep & Ek & Hcs).
+      rewrite Ep. change (Acquire (fst (pid_lock (pidat i))) (snd (pid_lock (pidat i))))
+        with (Acquire (fst (pl i)) (snd (pl i))).
+      apply pre_acq; [unfold mine, pl; rewrite lock_eqb_refl; reflexivity|intros []|].
+      rewrite Ek. apply pre_enter; [left; reflexivity|]. apply CS2_CS3. exact Hcs.
+  - (* private locks are private *)
+    intros i l H. destruct (Hmine_pid i l H) as [->| ->]; reflexivity.
+  - (* ... and belong to one thread *)
+    intros i j l Hi Hj Hi' Hj'.
+    assert (Hi2 : i < length calls) by (rewrite <- Hlen; exact Hi).
+    assert (Hj2 : j < length calls) by (rewrite <- Hlen; exact Hj).
+    apply Hinj; auto.
+    destruct (Hmine_pid i l Hi') as [Ei|Ei]; destruct (Hmine_pid j l Hj') as [Ej|Ej];
+      rewrite Ei in Ej; unfold pid_lock, obj_lock in Ej; inversion Ej; auto.
+  - apply api_pool_ok.
+  - destruct HI; assumption.
+  - apply well_typed_refs_typed. apply InvF_wt. destruct HI; assumption.
+  - unfold WInv. apply CrashGeneralT.Inv_typed. exact HI.
+  - (* the deleters' pids are bound in the start world *)
+    intros i Hi. unfold J. destruct (nth_error calls i) as [cl|] eqn:E; [|exact I].
+    destruct cl; try exact I. apply Hbound. eapply nth_error_In; eauto.
+  - (* complete runs keep the files well typed *)
+    intros i p w w1 r Hp HW Hl Hrun. destruct (Hnth i p Hp) as (cl & E & -> & Hcl).
+    destruct (run_as_Solo _ _ _ _ _ _ Hrun) as [hs Hs]. unfold WInv in *.
+    eapply (CrashGeneralT.solo_call_typed i cl (pidat i)); eauto.
+    destruct Hcl as [->| ->]; [left; reflexivity|right; eexists; reflexivity].
+  - (* a solo run of thread i keeps what thread j's reads rely on *)
+    intros i j p w hs ws m Hij Hp Hj HW Hl HJi HJj Hsolo. unfold J in *.
+    destruct (nth_error calls j) as [clj|] eqn:Ej; [|exact I].
+    destruct clj; try exact I. rename p0 into qj.
+    destruct (Hnth i p Hp) as (cl & E & -> & Hcl).
+    assert (Hqj : pidat j = qj) by (apply (Hpid j _ Ej)).
+    assert (Hne : qj <> pidat i).
+    { intros Eq. apply Hij. apply Hinj.
+      - apply nth_error_Some. congruence.
+      - apply nth_error_Some. congruence.
+      - congruence. }
+    destruct HJj as (B1 & (l & B2 & B3) & B4).
+    destruct (CrashGeneralT.solo_call_keeps_other i cl (pidat i) qj w hs ws m) as (_ & K1 & K2); auto.
+    { destruct Hcl as [->| ->]; [left; reflexivity|right; eexists; reflexivity]. }
+    { intros k Hk. rewrite B1 in Hk. inversion Hk; subst k. eauto. }
+    destruct (K2 c B1) as [K3 K4].
+    split; [rewrite K1; exact B1|]. split; [exact K3|].
+    destruct (lookup (AObj c) (fs w)) as [x|] eqn:Ex; [|congruence].
+    rewrite (K4 x eq_refl). discriminate.
+  - (* the conclusion, over [seq_run] *)
+    split; [exact H1|]. split; [exact H2|]. exists w', rs.
+    cbv zeta in *. destruct H3 as (N1 & N2 & N3 & N4 & N5).
+    assert (N2' : forall i, In i (entry_order (td_entry calls) sched) <-> i < length calls).
+    { intros i. rewrite <- Hlen. apply N2. }
+    split; [exact N1|]. split; [exact N2'|].
+    split; [|split; [exact N4 | exact N5]].
+    rewrite <- seq_runp_seq_run; [exact N3|]. intros i Hi. apply N2' in Hi. exact Hi.
+Qed.
+
+(* the deleters alone: N delete_object calls of pairwise distinct pids bound to one cid *)
+Corollary one_cid_deleters_linearizable :
+  forall (c : cid) (pids : list pid) (w0 : world) (sched : list nat) (cf : cfg),
+    let calls := map CDelete pids in
+    Spec.Inv w0 -> NoDup pids ->
+    (forall q, In q pids -> boundto q c (fs w0)) ->
+    exec (map api calls) sched (init_cfg (map api calls) w0) = Some cf ->
+    stuck (map api calls) cf ->
+    finished (map api calls) cf = true /\ locks (snd cf) = [] /\
+    exists (w' : world) (rs : list (outcome value)),
+      let ord := entry_order (td_entry calls) sched in
+      NoDup ord /\ (forall i, In i ord <-> i < length pids) /\
+      seq_run calls ord w0 = Some (w', rs) /\
+      snd cf = w' /\
+      map (thread_result (map api calls) cf) ord = map Some rs.
+Proof.
+  intros c pids w0 sched cf calls HI Hnd Hb He Hst.
+  assert (El : length calls = length pids) by (unfold calls; apply map_length).
+  rewrite <- El.
+  apply (one_cid_taggers_deleters_linearizable c calls w0 sched cf); auto.
+  - intros cl Hcl. unfold calls in Hcl. apply in_map_iff in Hcl. destruct Hcl as (q & <- & _). exact I.
+  - unfold calls. rewrite map_map. simpl. rewrite map_id. exact Hnd.
+  - intros q Hq. apply Hb. unfold calls in Hq. apply in_map_iff in Hq.
+    destruct Hq as (q' & E & Hq'). inversion E; subst. exact Hq'.
 Qed.
